@@ -503,12 +503,9 @@ namespace fixedmath
     [[ gnu::const, gnu::always_inline ]]
     constexpr fixed_t fixed_divisionf( fixed_t x, fixed_t y) noexcept
       {
-      if( fixed_likely(y.v != 0) )
-        {
-        fixed_t result { as_fixed( (x << 16).v / y.v ) };
-//         if( fixed_likely( check_division_result(result)) )
-          return result;
-        }
+      //dividend is prescaled by 2^16 and has to fit into 47 bits, otherwise the scaled value is not representable
+      if( fixed_likely(y.v != 0 && check_division_result(x)) )
+        return as_fixed( (x.v * 65536) / y.v );
       return quiet_NaN_result(); //abort ?
       }
 
@@ -542,6 +539,10 @@ namespace fixedmath
       {
       if( fixed_likely(rh != 0) )
         {
+        //unsigned 64 bit divisors above the signed range can not be promoted, they exceed any fixed_t magnitude
+        if constexpr( is_unsigned_v<integral_type> && sizeof(integral_type) == sizeof(fixed_internal) )
+          if( fixed_unlikely( rh > static_cast<integral_type>(std::numeric_limits<fixed_internal>::max()) ) )
+            return as_fixed(0);
         fixed_t const result = as_fixed( lh.v / promote_type_to_signed(rh) );
 //         if( fixed_likely( check_division_result(result)) )
           return result;
